@@ -145,7 +145,7 @@ func init() {
 		Bounds: func(tier string) string {
 			return fmt.Sprintf("sequences of %d snapshots over a universe of %d members with fixed kind sets; membership of each member in each snapshot and a duplicate entry are symbolic booleans; every snapshot contains the observing node", tierSel(tier, 3, 4), tierSel(tier, 4, 5)-1)
 		},
-		Outside:     []string{"members that change their kinds between snapshots while keeping their ID (a change of host under the same ID is included: symbolic per entry)", "Members()/HasKind() request plumbing (the agent's state is read directly)", "longer sequences / larger universes", "map iteration order: one order explored"},
+		Outside:     []string{"members that change their kinds between snapshots while keeping their ID (a change of host under the same ID is included: symbolic per entry)", "the Request/Result plumbing around Members()/HasKind() (the agent is sent the same getMembers/getKinds messages and its answers are checked, next to its state)", "longer sequences / larger universes", "map iteration order: one order explored"},
 		Assumptions: seqAssume("Agent built by NewAgent on a Cluster value whose engine is a bare engine with a synchronous event sink; snapshots are delivered by calling Agent.Receive"),
 	})
 	reg(&PropSpec{
